@@ -37,6 +37,7 @@ def cdX : Expr → Nat
   | .ifE _ _ c t (some eb) => max (cdE c) (max (cdBS t) (cdBS eb)) + 1
   | .ifE _ _ c t none => max (cdE c) (cdBS t) + 1
   | .call _ _ _ args _ => cdArgs args + args.length + 2
+  | .tryE _ _ t _ c => max (cdBS t) (cdBS c) + 2
   | _ => 1
 def cdSs : List Stmt → Nat
   | [] => 1
